@@ -5369,7 +5369,10 @@ class PyCdlib:
                     for index, ino in enumerate(self.inodes):
                         if id(ino) == id(entry.inode):
                             del self.inodes[index]
-                            num_bytes_to_remove += entry.inode.get_data_length()
+                            # Whole blocks, since this is added to the other
+                            # amounts before the sum is rounded.
+                            num_bytes_to_remove += utils.ceiling_div(entry.inode.get_data_length(),
+                                                                     self.logical_block_size) * self.logical_block_size
                             break
 
         num_bytes_to_remove += len(self.eltorito_boot_catalog.record())
